@@ -12,9 +12,11 @@ Record case := {
   c_dumped : option (list (option val));            (* per leaf: the entry handed to the dumper (None = no entry) *)
   c_reloaded : option (list (option val));          (* per leaf: the entry the loader returns for the text *)
   c_out : option (list val);                        (* the re-parsed configuration, or rejected *)
-  c_after : option (list val)                       (* the configuration object that was serialised, looked at again after the
+  c_after : option (list val);                      (* the configuration object that was serialised, looked at again after the
                                                        serialisation (None = not observed: print_config serialises inside
                                                        its own parse) *)
+  c_req_sub : bool;                                 (* the serialisation is done by a parser with a REQUIRED subcommand *)
+  c_sub : option str                                (* ... that has the subcommand whose options live under this prefix *)
 }.
 
 Definition missing : val := VOpaque [109;105;115;115;105;110;103]%N [].
@@ -38,13 +40,14 @@ Definition entry_opt (e : entry) : option (option val) :=
   match e with EErr => None | EAbsent => Some None | EPresent j => Some (Some j) end.
 
 Definition model_dumped (c : case) : option (list (option val)) :=
-  map_opt (fun lw => entry_opt (dump_entry (c_yl c) (c_var c) (fst lw) (snd lw))) (c_leaves c).
+  if dump_crashes (c_req_sub c) (c_var c) then None else
+  map_opt (fun lw => entry_opt (dump_entry (c_yl c) (leaf_var (c_sub c) (c_var c) (fst lw)) (fst lw) (snd lw))) (c_leaves c).
 
 Definition model_reload (c : case) (j : val) : val :=
   reload (c_plain c) (c_yrepr c) (c_jrepr c) dumper_table loader_table (vr_fmt (c_var c)) j.
 
 Definition model_out (c : case) : option (list val) :=
-  roundtrip (c_yl c) (c_plain c) (c_yrepr c) (c_jrepr c) dumper_table loader_table (c_var c) (c_leaves c).
+  roundtrip_top (c_yl c) (c_plain c) (c_yrepr c) (c_jrepr c) dumper_table loader_table (c_req_sub c) (c_sub c) (c_var c) (c_leaves c).
 
 Definition olist_eqb {A} (e : A -> A -> bool) (a b : option (list A)) : bool :=
   match a, b with Some x, Some y => list_eqb e x y | None, None => true | _, _ => false end.
@@ -71,7 +74,7 @@ Definition float_tie (e : fl * (str * str)) : bool :=
   && matches json_float_out j
   && (if nonfinite x then true else veq (cres_val (yaml_scalar loader_table j)) (VFloat x)).
 
-Definition cls (c : case) : N := case_class (c_yl c) (c_var c) (c_leaves c).
+Definition cls (c : case) : N := top_class (c_yl c) (c_req_sub c) (c_sub c) (c_var c) (c_leaves c).
 
 (* the text layer is outside the model where the trusted emitter/scanner assumption is known to be false (a str
    with a character of bad_char somewhere in the dumped data) or a second YAML library re-emits the text *)
@@ -106,8 +109,14 @@ Definition nested_none_dropped (c : case) : bool :=
 Definition after_same (c : case) : bool :=
   match c_after c with None => true | a => olist_eqb veq a (Some (map snd (c_leaves c))) end.
 
+(* the premise of C01_dump_parse_roundtrip_simple about the real parser: a leaf of the container grammar holds None or a
+   value of its type (wt) — whatever the parser was given (strings, ints for floats, lists for tuples) *)
+Definition simple_tie (c : case) : bool :=
+  forallb (fun lw => if simple_ty (lf_ty (fst lw)) then leaf_simple lw || negb (N.eqb (cls c) 0) else true) (c_leaves c).
+
 Definition judge1 (c : case) : verdict :=
   {| v_model :=
+       simple_tie c &&
        (if negb (dumped_modelled c) then true
         else if vr_comments (c_var c) then match c_dumped c with None => true | d => olist_eqb oveq (model_dumped c) d end
         else olist_eqb oveq (model_dumped c) (c_dumped c))
